@@ -565,16 +565,11 @@ def run(chk):
                 "just outside it (upper < lower, sd in {0,-0,<0}, p in {1+ulp, -denormal}) and NaN/inf. Each history runs on two fresh devices "
                 "with the same seed in the harness (reproducibility), which also draws the standard draws of a replicated std::mt19937(seed); the Lean model "
                 "recomputes the device output from these draws (bit for bit). non-trivial = the request was accepted (ok); distinct = distinct lines incl. raws.")
-    # Gen/Rng.lean is regenerated by every check process from *its* VERIF_REPO; when runs against different trees
-    # overlap, make sure that what was built is the text generated from the tree this run is about
-    for attempt in range(4):
-        path, differs = trans.generate()
-        mine = open(path).read()
-        chk.oblig = None
+    # Gen/Rng.lean is regenerated by every check process from *its* VERIF_REPO: keep other writers out from the
+    # regeneration to the end of the Lean build (oleans, driver, axiom audit), so that what is built is this tree's text
+    with trans.gen_lock():
+        path, differs = trans.generate(lock=False)
         chk.obligations(MODS, drivers=[FAMILY])
-        if open(path).read() == mine:
-            break
-        chk.notes.append("Gen/Rng.lean was overwritten by a concurrent run against another tree during the build; regenerated and rebuilt")
     if st:
         chk.report("translator-selftest", "translate/rng.py self-test failed: %r" % (st[:3],), {"selftest": [list(map(str, x)) for x in st]}, found_input=False)
     if differs:
@@ -588,7 +583,12 @@ def run(chk):
                    {"compile": cmd, "source": "harness/t_rng_lognormal.cc", "compiler_error": err[-3000:]})
     chk.extra_cov["log_normal_overloads_compile"] = ok_c
 
-    exe = build.build_harness(HARNESS)
+    try:
+        exe = build.build_harness(HARNESS)
+    except build.BuildError as e:
+        if "No such file" not in str(e):
+            raise
+        exe = build.build_harness(HARNESS)      # an object was evicted from the shared cache between compile and link
     # 2. histories
     rng = chk.rng
     n_seeds, per = (10, 30) if quick else (50, 100)
